@@ -42,14 +42,38 @@
   UNSUBSCRIBE / session removal leave every other session's
     memberships and the ids of remaining subscriptions unchanged  C01_unsub_others_untouched
 
+  REALM LEVEL (`Realm.handlePublish` / `handleSubscribe` / `handleUnsubscribe`, Nexus/L2/Realm.lean:
+  the handler-goroutine half of broker.go plus the delivery of the broker goroutine's sends to the
+  bounded router→client queues; vocabulary `pubOf`, `pptRefused`, `discloseRefused`, `ackList` in
+  Nexus/L2/Proofs/RealmPublish.lean, `queueOf`, `accept`, `msgsTo`, `client?` in RealmQueue.lean)
+
+  PUBLISH to an invalid topic (strict × exact): the state is unchanged
+    except one ERROR(PUBLISH, req, invalid_uri) offered to the
+    publisher's own queue iff `acknowledge` is the bool true
+    (dropped, changing nothing, if that queue is full)               C01_publish_invalid_uri
+  PUBLISH valid and allowed: queues = old queues offered, in order,
+    the EVENTs of `C01_delivery_exact` for pubId = pubBase + pubCount
+    then PUBLISHED(req, that id) to the publisher iff acknowledged
+    (a full queue drops that message and nothing else); pubCount + 1;
+    the broker changes only in its history stores                    C01_publish_ack
+  PUBLISH with payload passthru by a publisher lacking the feature:
+    ABORT to the publisher, a `leave … aborted` task, nothing delivered C01_publish_ppt_abort
+  (PUBLISH with disclose_me refused by the realm: Nexus.C12.C12_refused)
+  SUBSCRIBE: invalid (strict × match) topic → one ERROR invalid_uri to
+    the sender, nothing else; otherwise the broker-level sends of
+    `syncSubscribe` offered to the queues, SUBSCRIBED first            C01_subscribe_realm
+  UNSUBSCRIBE: the broker-level sends of `syncUnsubscribe` offered to
+    the queues (UNSUBSCRIBED or ERROR no_such_subscription first)      C01_unsubscribe_realm
+
   Explicit assumption: the subscription id generator does not wrap (`nextSub : Nat`; the 2^53 wrap
   of `wamp.IDGen` is not modelled).  Interpretation recorded: an `eligible`/`exclude` list without
   any valid entry imposes nothing (that is what the code does).
   The `invalid_uri` answers are produced by the realm handler before the broker is reached
-  (`Realm.handleSubscribe`/`handlePublish`), not by the `sync*` functions covered here.
+  (`Realm.handleSubscribe`/`handlePublish`): see the realm-level theorems.
 -/
 import Nexus.L2.Proofs.BrokerDeliver
 import Nexus.L2.Proofs.BrokerBase
+import Nexus.L2.Proofs.RealmPublish
 
 namespace Nexus.C01
 open Nexus.L2 Gen.N
@@ -317,5 +341,199 @@ theorem C01_unsub_others_untouched {b : Broker} (hb : BrokerInv b) (k : SessKey)
       rw [isMember_stripped h1]
       rintro ⟨hm, hn⟩
       exact hn ⟨rfl, (hP id).mpr hm⟩
+
+/-! ### realm level: PUBLISH -/
+
+open Realm in
+/-- PUBLISH to a topic that is not a valid URI for (strict, exact): the realm is `r` after offering
+    the publisher's own queue one ERROR(PUBLISH, req, wamp.error.invalid_uri) — iff the option
+    `acknowledge` is the bool `true`; otherwise nothing at all happens.  For an attached (non-meta)
+    publisher: if its queue is full the ERROR is dropped and the state is exactly `r`; if there is
+    room, exactly that message is appended to exactly that queue and everything else (all tables, all
+    other queues, tasks, panic flag) is unchanged.  No publication id is drawn, the broker is untouched. -/
+theorem C01_publish_invalid_uri (r : Realm) (s : Session) (req : Nat) (opts : Dict) (topic : String)
+    (args : List WVal) (kw : Dict) (hv : validUri r.broker.strict "" topic = false) :
+    (opts.optFlag OptAcknowledge = true ↔ opts.get? OptAcknowledge = some (.bool true)) ∧
+    (opts.optFlag OptAcknowledge = false → handlePublish r s req opts topic args kw = r) ∧
+    (opts.optFlag OptAcknowledge = true →
+      handlePublish r s req opts topic args kw =
+        r.trySend ⟨s.key, .error tPUBLISH req [] ErrInvalidURI [.str "<text>"] []⟩ ∧
+      ∀ c, s.key ≠ metaKey → r.client? s.key = some c →
+        (c.cap ≤ r.queueLen s.key → handlePublish r s req opts topic args kw = r) ∧
+        (r.queueLen s.key < c.cap →
+          (handlePublish r s req opts topic args kw).queueOf s.key =
+            r.queueOf s.key ++ [.error tPUBLISH req [] ErrInvalidURI [.str "<text>"] []] ∧
+          (∀ k, k ≠ s.key → (handlePublish r s req opts topic args kw).queueOf k = r.queueOf k) ∧
+          SendFrame r (handlePublish r s req opts topic args kw) ∧
+          (handlePublish r s req opts topic args kw).tasks = r.tasks ∧
+          (handlePublish r s req opts topic args kw).panic = r.panic)) := by
+  have heq := handlePublish_invalid r s req opts topic args kw hv
+  refine ⟨optFlag_iff opts OptAcknowledge, ?_, ?_⟩
+  · intro ha; rw [heq]; unfold ackList; rw [ha]; rfl
+  · intro ha
+    have heq' : handlePublish r s req opts topic args kw =
+        r.trySend ⟨s.key, .error tPUBLISH req [] ErrInvalidURI [.str "<text>"] []⟩ := by
+      rw [heq]; unfold ackList; rw [ha]; rfl
+    refine ⟨heq', ?_⟩
+    intro c hk hc
+    rw [heq']
+    exact trySend_client_effect r ⟨s.key, _⟩ hk hc
+
+/-- non-vacuity: an invalid topic (empty component) for loose, exact -/
+example : validUri false "" "a..b" = false := by decide +kernel
+
+open Realm in
+/-- PUBLISH to a valid topic, not refused (payload passthru allowed or unused, disclose_me allowed or
+    not requested).  With `p := pubOf r s opts topic args kw` — publisher `s`, publication id
+    `pubBase + r.pubCount` — and `(b', evs) := r.broker.syncPublish r.session? r.now p` (so `evs` are
+    exactly the EVENTs of `C01_delivery_exact` for `p`, when `BrokerInv r.broker`):
+    * the new state is `{ r with pubCount := r.pubCount + 1, broker := b' }` after `deliver` of `evs`
+      followed by PUBLISHED(req, p.pubId) to the publisher iff `acknowledge` is the bool true;
+    * hence for every attached client `k`: its queue is its old queue offered, in order, the messages
+      of that list addressed to `k`, each appended if there is room at that moment and lost otherwise;
+      every other queue is untouched;
+    * the publication counter grows by one; clients, dealer, closed peers, ghosts, ending, testaments,
+      retries, clock and configuration are unchanged; the broker changes only in its history stores. -/
+theorem C01_publish_ack (r : Realm) (s : Session) (req : Nat) (opts : Dict) (topic : String)
+    (args : List WVal) (kw : Dict) (hv : validUri r.broker.strict "" topic = true)
+    (hp : pptRefused s opts = false) (hd : discloseRefused r opts = false) :
+    (pubOf r s opts topic args kw).pubId = pubBase + r.pubCount ∧
+    handlePublish r s req opts topic args kw =
+      ({ r with pubCount := r.pubCount + 1,
+                broker := (r.broker.syncPublish r.session? r.now (pubOf r s opts topic args kw)).1 } : Realm).deliver
+        ((r.broker.syncPublish r.session? r.now (pubOf r s opts topic args kw)).2 ++
+          ackList opts ⟨s.key, .published req (pubBase + r.pubCount)⟩) ∧
+    (∀ k c, k ≠ metaKey → r.client? k = some c →
+      (handlePublish r s req opts topic args kw).queueOf k =
+        accept c.cap (r.queueOf k)
+          (msgsTo k ((r.broker.syncPublish r.session? r.now (pubOf r s opts topic args kw)).2 ++
+            ackList opts ⟨s.key, .published req (pubBase + r.pubCount)⟩))) ∧
+    (∀ k, (k = metaKey ∨ r.client? k = none) →
+      (handlePublish r s req opts topic args kw).queueOf k = r.queueOf k) ∧
+    (handlePublish r s req opts topic args kw).pubCount = r.pubCount + 1 ∧
+    (handlePublish r s req opts topic args kw).broker =
+      (r.broker.syncPublish r.session? r.now (pubOf r s opts topic args kw)).1 ∧
+    ((handlePublish r s req opts topic args kw).broker.subs = r.broker.subs ∧
+     (handlePublish r s req opts topic args kw).broker.index = r.broker.index ∧
+     (handlePublish r s req opts topic args kw).broker.nextSub = r.broker.nextSub) ∧
+    ((handlePublish r s req opts topic args kw).clients = r.clients ∧
+     (handlePublish r s req opts topic args kw).ds = r.ds ∧
+     (handlePublish r s req opts topic args kw).closedPeers = r.closedPeers ∧
+     (handlePublish r s req opts topic args kw).ghosts = r.ghosts ∧
+     (handlePublish r s req opts topic args kw).ending = r.ending ∧
+     (handlePublish r s req opts topic args kw).testaments = r.testaments ∧
+     (handlePublish r s req opts topic args kw).retries = r.retries ∧
+     (handlePublish r s req opts topic args kw).now = r.now ∧
+     (handlePublish r s req opts topic args kw).cfg = r.cfg) := by
+  have heq := handlePublish_ok r s req opts topic args kw hv hp hd
+  obtain ⟨f1, f2, f3, f4, f5, f6, f7, f8, f9, f10, f11⟩ := brokerStep_frame r
+    (r.broker.syncPublish r.session? r.now (pubOf r s opts topic args kw)).1 (r.pubCount + 1)
+    ((r.broker.syncPublish r.session? r.now (pubOf r s opts topic args kw)).2 ++
+      ackList opts ⟨s.key, .published req (pubBase + r.pubCount)⟩)
+  refine ⟨rfl, heq, ?_, ?_, by rw [heq, f2], by rw [heq, f1], ?_, ?_⟩
+  · intro k c hk hc
+    rw [heq]
+    exact brokerStep_queue r _ _ _ k c hk hc
+  · intro k hk
+    rw [heq]
+    exact brokerStep_queue_other r _ _ _ k hk
+  · rw [heq, f1]
+    exact syncPublish_subs _ _ _ _
+  · rw [heq]
+    exact ⟨f3, f4, f5, f6, f7, f8, f9, f10, f11⟩
+
+/-- non-vacuity of the three hypotheses: a valid topic, no passthru, no disclose_me -/
+example : validUri false "" "a.b" = true ∧
+    Realm.pptRefused (exSession 1) [("acknowledge", .bool true)] = false ∧
+    Realm.discloseRefused {} [("acknowledge", .bool true)] = false := by
+  refine ⟨by decide +kernel, by decide +kernel, by decide +kernel⟩
+
+open Realm in
+/-- PUBLISH using payload passthru by a publisher that has not announced the feature: ABORT is offered
+    to the publisher's queue, the handler schedules its own departure (`leave … aborted`) and marks the
+    session as ending; nothing is delivered to anybody else, no publication id is drawn, the broker
+    (subscriptions and history) is untouched. -/
+theorem C01_publish_ppt_abort (r : Realm) (s : Session) (req : Nat) (opts : Dict) (topic : String)
+    (args : List WVal) (kw : Dict) (hv : validUri r.broker.strict "" topic = true)
+    (hp : pptRefused s opts = true) :
+    handlePublish r s req opts topic args kw =
+      { (r.trySend ⟨s.key, abortMsg "<text>"⟩) with
+        tasks := (r.trySend ⟨s.key, abortMsg "<text>"⟩).tasks ++ [.leave s.key .aborted],
+        ending := (r.trySend ⟨s.key, abortMsg "<text>"⟩).ending ++ [s.key] } ∧
+    (∀ k, k ≠ s.key → (handlePublish r s req opts topic args kw).queueOf k = r.queueOf k) ∧
+    (handlePublish r s req opts topic args kw).broker = r.broker ∧
+    (handlePublish r s req opts topic args kw).pubCount = r.pubCount ∧
+    (handlePublish r s req opts topic args kw).clients = r.clients := by
+  have heq := handlePublish_ppt r s req opts topic args kw hv hp
+  have hf := trySend_frame r ⟨s.key, abortMsg "<text>"⟩
+  refine ⟨heq, ?_, ?_, ?_, ?_⟩
+  · intro k hk
+    rw [heq]
+    show (r.trySend ⟨s.key, abortMsg "<text>"⟩).queueOf k = _
+    rw [queueOf_trySend, if_neg (fun h => hk h.1.symm)]
+  · rw [heq]; exact hf.broker
+  · rw [heq]; exact hf.pubCount
+  · rw [heq]; exact hf.clients
+
+/-! ### realm level: SUBSCRIBE / UNSUBSCRIBE -/
+
+open Realm in
+/-- SUBSCRIBE at realm level.  Invalid topic for (strict, match option): exactly one
+    ERROR(SUBSCRIBE, req, invalid_uri) is offered to the sender's queue and nothing else happens (the
+    broker is not reached).  Otherwise, with `(b', sends, n) := r.broker.syncSubscribe s.key req topic m
+    r.pubCount`: the new state is `{ r with broker := b', pubCount := r.pubCount + n }` after `deliver
+    sends` — i.e. every attached client's queue is offered the broker-level sends addressed to it, in
+    order (SUBSCRIBED(req, id) for the subscriber, meta EVENTs for the others: `C01_subscribe_stable_id`). -/
+theorem C01_subscribe_realm (r : Realm) (s : Session) (req : Nat) (opts : Dict) (topic : String) :
+    (validUri r.broker.strict (opts.optString OptMatch) topic = false →
+      handleSubscribe r s req opts topic =
+        r.trySend ⟨s.key, .error tSUBSCRIBE req [] ErrInvalidURI [.str "<text>"] []⟩ ∧
+      (handleSubscribe r s req opts topic).broker = r.broker ∧
+      (∀ k, k ≠ s.key → (handleSubscribe r s req opts topic).queueOf k = r.queueOf k)) ∧
+    (validUri r.broker.strict (opts.optString OptMatch) topic = true →
+      handleSubscribe r s req opts topic =
+        ({ r with pubCount := r.pubCount +
+                    (r.broker.syncSubscribe s.key req topic (opts.optString OptMatch) r.pubCount).2.2,
+                  broker := (r.broker.syncSubscribe s.key req topic (opts.optString OptMatch) r.pubCount).1 } : Realm).deliver
+          (r.broker.syncSubscribe s.key req topic (opts.optString OptMatch) r.pubCount).2.1 ∧
+      (∀ k c, k ≠ metaKey → r.client? k = some c →
+        (handleSubscribe r s req opts topic).queueOf k =
+          accept c.cap (r.queueOf k)
+            (msgsTo k (r.broker.syncSubscribe s.key req topic (opts.optString OptMatch) r.pubCount).2.1)) ∧
+      (∀ k, (k = metaKey ∨ r.client? k = none) → (handleSubscribe r s req opts topic).queueOf k = r.queueOf k) ∧
+      (handleSubscribe r s req opts topic).clients = r.clients) := by
+  constructor
+  · intro hv
+    have heq := handleSubscribe_invalid r s req opts topic hv
+    have hf := trySend_frame r ⟨s.key, invalidUriErr tSUBSCRIBE req⟩
+    refine ⟨heq, by rw [heq]; exact hf.broker, ?_⟩
+    intro k hk
+    rw [heq]
+    show (r.trySend ⟨s.key, invalidUriErr tSUBSCRIBE req⟩).queueOf k = _
+    rw [queueOf_trySend, if_neg (fun h => hk h.1.symm)]
+  · intro hv
+    have heq := handleSubscribe_ok r s req opts topic hv
+    refine ⟨heq, ?_, ?_, by rw [heq]; exact (brokerStep_frame r _ _ _).2.2.1⟩
+    · intro k c hk hc; rw [heq]; exact brokerStep_queue r _ _ _ k c hk hc
+    · intro k hk; rw [heq]; exact brokerStep_queue_other r _ _ _ k hk
+
+open Realm in
+/-- UNSUBSCRIBE at realm level: the broker-level sends of `syncUnsubscribe` (UNSUBSCRIBED or ERROR
+    no_such_subscription for the sender — `C01_unsubscribe_errors` —, meta EVENTs for the others)
+    offered to the queues, on the state with the broker and the publication counter updated. -/
+theorem C01_unsubscribe_realm (r : Realm) (s : Session) (req sub : Nat) :
+    handleUnsubscribe r s req sub =
+      ({ r with pubCount := r.pubCount + (r.broker.syncUnsubscribe s.key req sub r.pubCount).2.2,
+                broker := (r.broker.syncUnsubscribe s.key req sub r.pubCount).1 } : Realm).deliver
+        (r.broker.syncUnsubscribe s.key req sub r.pubCount).2.1 ∧
+    (∀ k c, k ≠ metaKey → r.client? k = some c →
+      (handleUnsubscribe r s req sub).queueOf k =
+        accept c.cap (r.queueOf k) (msgsTo k (r.broker.syncUnsubscribe s.key req sub r.pubCount).2.1)) ∧
+    (∀ k, (k = metaKey ∨ r.client? k = none) → (handleUnsubscribe r s req sub).queueOf k = r.queueOf k) ∧
+    (handleUnsubscribe r s req sub).clients = r.clients := by
+  have heq := handleUnsubscribe_eq r s req sub
+  refine ⟨heq, ?_, ?_, by rw [heq]; exact (brokerStep_frame r _ _ _).2.2.1⟩
+  · intro k c hk hc; rw [heq]; exact brokerStep_queue r _ _ _ k c hk hc
+  · intro k hk; rw [heq]; exact brokerStep_queue_other r _ _ _ k hk
 
 end Nexus.C01
